@@ -186,8 +186,7 @@ Conversion<Unit::TemperatureDifference, Unit::TemperatureDifference::Fahrenheit>
 }
 
 template <typename NumericType>
-inline const std::map<Unit::TemperatureDifference,
-                      std::function<void(NumericType* values, const std::size_t size)>>
+inline const ConversionTable<Unit::TemperatureDifference, NumericType>
     MapOfConversionsFromStandard<Unit::TemperatureDifference, NumericType>{
       {Unit::TemperatureDifference::Kelvin,
        Conversions<Unit::TemperatureDifference, Unit::TemperatureDifference::Kelvin>::
@@ -204,8 +203,7 @@ inline const std::map<Unit::TemperatureDifference,
 };
 
 template <typename NumericType>
-inline const std::map<Unit::TemperatureDifference,
-                      std::function<void(NumericType* const values, const std::size_t size)>>
+inline const ConversionTable<Unit::TemperatureDifference, NumericType>
     MapOfConversionsToStandard<Unit::TemperatureDifference, NumericType>{
       {Unit::TemperatureDifference::Kelvin,
        Conversions<Unit::TemperatureDifference, Unit::TemperatureDifference::Kelvin>::
